@@ -10,7 +10,7 @@ META = {
             'dict / Config object, followed by a probe call; the probe result is compared with the result the same call gives in a '
             'pristine interpreter state (computed before any history), caller objects and module-level state are compared with snapshots.',
     'bounds': {
-        'quick': 'histories of <=2 calls from a 12-call menu + probe (12) x shared-cache flag x shared-config flag',
+        'quick': 'histories of <=2 calls from a 16-call menu + probe (12) x shared-cache flag x shared-config flag',
         'thorough': 'histories of <=3 calls',
     },
     'stubs': ['the menu calls are concrete and run outside the tracer; the solver decides history, probe and sharing pattern [C]'],
@@ -34,10 +34,14 @@ def menu():
         ('d', {'type': 'stylesheet', 'context': {'name': '@@property'}}),
         ('pos:r+lh1.5e', {'type': 'stylesheet'}),
         ('x{y}', {'text': 'wrapped', 'options': {'comment.enabled': True, 'bem.enabled': True}}),
+        ('ul>li*', {'text': []}),                                             # empty (but present) wrap text
+        ('img', {'text': ''}),
+        ('zom+lh', {'type': 'stylesheet', 'options': {'stylesheet.unitless': []}}),
+        ('zom+lh', {'type': 'stylesheet'}),
     ]
 
 
-STYLESHEET_SAME_TABLE = {5: 'builtin', 8: 'builtin', 9: 'builtin', 10: 'builtin', 6: 'foo', 7: 'foo'}
+STYLESHEET_SAME_TABLE = {5: 'builtin', 8: 'builtin', 9: 'builtin', 10: 'builtin', 6: 'foo', 7: 'foo', 14: 'builtin', 15: 'builtin'}
 
 
 def module_state():
